@@ -7,7 +7,8 @@ import subprocess
 import sys
 
 ROOT = os.path.dirname(os.path.dirname(os.path.abspath(__file__)))
-EXTRA = {"C08-b": [], "C09-b": ["C16"], "C10-b": ["C09"], "C11-b": ["C01"], "C12-b": ["C02"], "C13-b": ["C03"], "C14-b": ["C07"],
+EXTRA = {"C15-b": [], "C16-b": ["C07", "C01"], "C17-b": ["C06"], "C18-b": [], "C19-b": [], "C20-b": [],
+         "C08-b": [], "C09-b": ["C16"], "C10-b": ["C09"], "C11-b": ["C01"], "C12-b": ["C02"], "C13-b": ["C03"], "C14-b": ["C07"],
          "C01-b": ["C16", "C03"], "C02-b": ["C12"], "C03-b": ["C01", "C13"], "C04-b": ["C11"], "C05-b": ["C19"], "C06-b": [], "C07-b": ["C13"],
          "C03-a": ["C13"], "C13-a": ["C07"], "C07-a": ["C13"], "C02-a": ["C09"], "C05-a": ["C19"], "C12-a": ["C17"], "C17-a": ["C12"],
          "C16-a": ["C01"], "C09-a": ["C01", "C03"], "C06-a": ["C19"], "C14-a": ["C01"], "C01-a": ["C03", "C09"], "C10-a": ["C04", "C09"],
